@@ -2,6 +2,7 @@
 
 from __future__ import annotations
 
+import enum
 import inspect
 import random
 from abc import ABC
@@ -18,8 +19,13 @@ TECHNIQUE = (
     "byte strings and mutated neighbours, through every public parse entry point (UDSResponse.parse_dynamic, <Class>.from_pdu, "
     "<PositiveClass>.parse_static) on the same byte strings; object-independence monitor: typed results are kept alive with a frozen copy "
     "of their public attributes and judged again (pdu, attributes) after later responses of the same class were parsed; "
+    "second-parse monitor: every 12th case is parsed, every public attribute of the result is re-assigned / edited in place as a caller may do "
+    "(plain attributes, data_record / data_identifier / RawResponse.pdu setters), an equal byte string is parsed again through the same entry "
+    "point and the second result is judged (pdu, attributes; raw results must still carry the bytes); "
     "stored-form monitor: typed responses (incl. 4096..70000 byte replies) handed to the real "
-    "DBHandler, scan_result.response_pdu / response_data read back from sqlite and compared with the object's pdu / data"
+    "DBHandler, scan_result.response_pdu / response_data read back from sqlite and compared with the pdu / data the object had when it was "
+    "handed over - the caller leaves its object alone, or edits it right after insert_scan_result() returned, or after one suspension, "
+    "while the handler is still open"
 )
 LEVEL_TEXT = (
     "Exploration with exhaustive sub-spaces: UDSResponse.parse_dynamic, every concrete response class' from_pdu and every positive "
@@ -29,8 +35,11 @@ LEVEL_TEXT = (
     "response first bytes, (c) truncations, 1..3 byte extensions and all single-bit flips of valid responses (incl. of 7F sid nrc). A typed result must "
     "re-serialise to the received bytes and expose the reference decoder's field values - when it is parsed and again at the end of its "
     "batch (up to 1500 later parses in the same process, one batch per class in the per-class shard), so state shared between "
-    "objects of a class shows in the later object or in the earlier one; (d) typed responses of 1..70000 bytes are "
-    "written through DBHandler.insert_scan_result and the stored columns must be the hex form of the object's pdu and data. Held = held on those byte strings."
+    "objects of a class shows in the later object or in the earlier one; every 12th case (all entry points, typed and raw results) is "
+    "also parsed a second time after the caller re-assigned / edited in place every public attribute of the first result, and the second "
+    "result is judged; (d) typed responses of 1..70000 bytes are "
+    "written through DBHandler.insert_scan_result and the stored columns must be the hex form of the pdu and data the object had at that "
+    "call, also when the caller edits its object afterwards (at once / after one suspension) before the handler is closed. Held = held on those byte strings."
 )
 LEVEL_NOTE = "Trusted: reference decoder in vf/iso14229.py. Leniency that loses nothing (accepted and re-encoded identically) is counted, not reported."
 RULE = (
@@ -40,7 +49,7 @@ RULE = (
     "parse_dynamic and through from_pdu / parse_static of a class of that response sid (negative responses: NegativeResponse.from_pdu and "
     "parse_static of any positive class); non-trivial = the "
     "parser returned a typed (non-raw) object; distinct = distinct (entry point, byte string); evaluations also count the second "
-    "judgement of kept objects"
+    "judgement of kept objects and the judgement of second parses after an edit of the first result"
 )
 ASSUMPTIONS = [
     "reference decoder transcribed from ISO 14229-1 (DESIGN.md appendix A)",
@@ -69,7 +78,13 @@ def required_reach(tier: str) -> dict[str, int]:
             "entry.parse_dynamic.typed": 1000, "entry.from_pdu.typed": 1000, "entry.parse_static.typed": 1000, "parse_static.classes": 30,
             "parse_static.negative-typed": 100, "parse_static.negative-input.len<3": 100, "parse_static.negative-input.len=3": 100, "parse_static.negative-input.len>3": 100,
             # objects of one class with different content in one process: the later one judged, the earlier ones judged again afterwards
-            "state.typed-after-other-content-of-same-class": 1000, "state.rechecked-after-later-parse": 1000, "#state.rechecked-class:": 30}
+            "state.typed-after-other-content-of-same-class": 1000, "state.rechecked-after-later-parse": 1000, "#state.rechecked-class:": 30,
+            # the same byte string parsed again after the caller edited the earlier result (edits that changed what that object re-serialises to)
+            "again.after-edit-that-changed-pdu.typed": 1000, "again.after-edit-that-changed-pdu.raw": 100, "#again.edited-class:": 30,
+            "again.after-edit.entry.parse_dynamic": 1000, "again.after-edit.entry.from_pdu": 1000, "again.after-edit.entry.parse_static": 1000,
+            # stored form: what the caller did with its response object after insert_scan_result() had returned
+            "stored.caller-afterwards.left-alone": 20, "stored.caller-afterwards.edited-at-once/pdu-changed": 20,
+            "stored.caller-afterwards.edited-after-one-suspension/pdu-changed": 20}
 
 
 # ---- valid response generator (from the ISO layouts) ---------------------------------------------
@@ -193,6 +208,9 @@ def class_tag(b: bytes) -> str:
 def check_bytes(ctx: Any, b: bytes, parser: Any, entry: str, service: Any, keep: "Keeper | None" = None) -> None:
     ref = iso.decode_response(b)
     ek = entry.rsplit(".", 1)[-1]  # parse_dynamic | from_pdu | parse_static
+    AGAIN["n"] += 1
+    if AGAIN["n"] % AGAIN_EVERY == 0:
+        second_parse_after_edit(ctx, b, parser, entry, service)
     if ek == "parse_static" and b[:1] == b"\x7f":
         # the static entry point hands 7F.. to the negative response parser: which length classes of negative input reached it
         ctx.reach("parse_static.negative-input.len" + ("<3" if len(b) < 3 else "=3" if len(b) == 3 else ">3"))
@@ -290,6 +308,131 @@ def exposed(obj: Any) -> tuple[tuple[str, Any], ...]:
     return tuple((k, freeze(v)) for k, v in sorted(vars(obj).items()) if not k.startswith("_") and k != "trigger_request")
 
 
+# ---- the same byte string received again after the caller edited the earlier result ---------------
+# Response objects are mutable on purpose (plain public attributes, data_record / data_identifier setters, RawResponse.pdu setter)
+# and callers post-process what they got.  The statement is about the byte string: what the parser returns for X has to expose /
+# re-serialise X also when X was parsed before and the caller has edited *that* result meanwhile.  Every AGAIN_EVERY-th call of
+# check_bytes therefore parses its byte string, re-assigns / edits in place every public attribute of the result, parses an equal
+# byte string through the same entry point again and judges the second result (raw results: must still carry the bytes).
+AGAIN = {"n": 0}
+AGAIN_EVERY = 12
+EDIT_RNG = random.Random(0)  # re-seeded in run(); separate from ctx.rng so that the generated byte strings do not depend on it
+
+
+def altered(v: Any, rng: random.Random) -> Any:
+    """(True, a different value of the same type) | (True, v) after an in-place edit of a mutable v | (False, None): nothing known"""
+    if isinstance(v, bool):
+        return True, not v
+    if isinstance(v, enum.Enum):
+        others = [m for m in type(v) if m is not v]
+        return (True, rng.choice(others)) if others else (False, None)
+    if isinstance(v, int):
+        return True, rng.choice([v ^ 1, v ^ 0x80, v + 1, 0 if v else 1])
+    if isinstance(v, (bytes, bytearray)):
+        c = [bytes(v) + b"\x00", b"\xa5" + bytes(v)]
+        if v:
+            c += [bytes(v[:-1]), bytes(v[1:]), bytes([v[0] ^ 0xFF]) + bytes(v[1:]), bytes(v).rstrip(bytes(v[-1:]))]
+        return True, type(v)(rng.choice(c))
+    if isinstance(v, dict):
+        if v and rng.random() < 0.7:
+            k = rng.choice(list(v))
+            ok, x = altered(v[k], rng)
+            if ok and rng.random() < 0.5:
+                v[k] = x
+            else:
+                del v[k]
+        else:
+            v[rng.randrange(1 << 24)] = rng.randrange(256)
+        return True, v
+    if isinstance(v, list):
+        if v and rng.random() < 0.7:
+            i = rng.randrange(len(v))
+            ok, x = altered(v[i], rng)
+            if ok and rng.random() < 0.5:
+                v[i] = x
+            else:
+                del v[i]
+        else:
+            v.append(v[0] if v else 0)
+        return True, v
+    if isinstance(v, tuple) and v:
+        i = rng.randrange(len(v))
+        ok, x = altered(v[i], rng)
+        return (True, v[:i] + (x,) + v[i + 1 :]) if ok else (True, v[:i] + v[i + 1 :])
+    return False, None
+
+
+def settable(obj: Any) -> list[str]:
+    """public attributes a caller can assign: instance attributes and properties with a setter"""
+    names = [k for k in vars(obj) if not k.startswith("_") and k != "trigger_request"]
+    for klass in type(obj).__mro__:
+        for k, d in vars(klass).items():
+            if isinstance(d, property) and d.fset is not None and not k.startswith("_") and k not in names:
+                names.append(k)
+    return sorted(names)
+
+
+def edit_public(obj: Any, rng: random.Random) -> list[str]:
+    """what a caller may do with its result: re-assign every public attribute (or edit its mutable value in place)"""
+    done = []
+    for k in settable(obj):
+        try:
+            ok, x = altered(getattr(obj, k), rng)
+            if ok:
+                setattr(obj, k, x)
+                done.append(k)
+        except Exception:  # a setter that validates, a getter that no longer works after an earlier edit: that attribute stays
+            continue
+    return done
+
+
+def second_parse_after_edit(ctx: Any, b: bytes, parser: Any, entry: str, service: Any, rng: random.Random | None = None) -> None:
+    ek = entry.rsplit(".", 1)[-1]
+    try:
+        first = parser(b)
+        p1 = first.pdu
+    except Exception:
+        return  # nothing returned that a caller could edit (or reported by check_bytes)
+    if p1 != b:
+        return  # reported by check_bytes
+    cname = type(first).__name__
+    raw = isinstance(first, service.RawResponse)
+    snap = exposed(first)
+    edited = edit_public(first, rng or EDIT_RNG)
+    if not edited:
+        ctx.reach("again.nothing-to-edit")  # e.g. 54: a response without fields
+        return
+    try:
+        changed = first.pdu != b
+    except Exception:
+        changed = True
+    ctx.reach(f"again.after-edit.{'raw' if raw else 'typed'}")
+    if changed:
+        ctx.reach(f"again.after-edit-that-changed-pdu.{'raw' if raw else 'typed'}")
+    ctx.reach(f"again.after-edit.entry.{ek}")
+    ctx.reach(f"again.edited-class:{cname}")
+    for k in edited:
+        ctx.reach(f"again.edited-attr:{k}")
+    ctx.evals(1)
+    w = {"entry": entry, "bytes": b, "class": cname, "edited": edited}
+    try:
+        second = parser(bytes(bytearray(b)))  # an equal byte string, not the same bytes object
+        p2 = second.pdu
+    except Exception as e:
+        ctx.violation(f"{cname}/second-parse-after-edit/raises/{type(e).__name__}", f"accepted as {cname}; after the caller edited that result the same byte string is not parsed / re-serialised any more", {**w, "error": repr(e)})
+        return
+    if type(second) is not type(first):
+        ctx.violation(f"{cname}/second-parse-after-edit/other-class", f"accepted as {cname}; after the caller edited that result the same byte string is returned as {type(second).__name__}", {**w})
+        return
+    if p2 != b:
+        ctx.violation(f"{cname}/second-parse-after-edit/pdu", f"{cname}: the same byte string parsed again after the caller edited the earlier result re-serialises to other bytes (the earlier, edited object is handed out again)", {**w, "got": p2})
+    now = exposed(second)
+    if now != snap:
+        was = dict(snap)
+        diff = sorted(k for k, v in now if was.get(k, "<missing>") != v) or sorted(set(was) - {k for k, _ in now})
+        ctx.violation(f"{cname}/second-parse-after-edit/attr:{'+'.join(diff)}", f"{cname}: the same byte string parsed again after the caller edited the earlier result exposes the edited values, not those of the received bytes", {**w, "attrs": diff, "now": repr(now)[:300]})
+
+
 class Keeper:
     """keeps (entry, received bytes, object, frozen public attributes) of typed results alive; flush() judges them again"""
 
@@ -384,6 +527,8 @@ def run(ctx: Any, params: dict[str, Any]) -> None:
     from gallia.services.uds.core import service
 
     rng = ctx.rng
+    EDIT_RNG.seed(f"C02/edit/{ctx.seed}/{ctx.shard_index}")
+    AGAIN["n"] = 0
     ent = Entries(service)
     dyn = ent.dyn
     keep = Keeper(ctx)
@@ -481,9 +626,11 @@ def run(ctx: Any, params: dict[str, Any]) -> None:
 LONG_LENGTHS = [20, 21, 255, 4093, 4094, 4095, 4096, 4097, 8190, 8191, 20000, 70000]
 
 
-def stored_form(ctx: Any, replies: list[bytes], service: Any) -> None:
+def stored_form(ctx: Any, replies: list[bytes], service: Any, use: str = "mix") -> None:
     """'logs and the database store the re-serialised form as what the ECU sent': hand typed responses to the real DBHandler
-    (insert_scan_result, writer task, sqlite) and compare the stored columns with the object's own pdu / data."""
+    (insert_scan_result, writer task, sqlite) and compare the stored columns with the pdu / data the object had when it was handed over.
+    The caller keeps its response object: after insert_scan_result() returned it leaves the object alone, or edits its public
+    attributes at once (before anything else ran), or after it was suspended once - while the handler is still open."""
     import asyncio
     import json
 
@@ -493,16 +640,18 @@ def stored_form(ctx: Any, replies: list[bytes], service: Any) -> None:
     from vf import dbharness as dbh
 
     path = ctx.mkscratch() / "c02-stored.sqlite"
-    kept: list[tuple[bytes, Any]] = []
+    kept: list[tuple[bytes, Any, bytes, bytes | None, str]] = []  # received, object, pdu and data when handed over, what the caller did afterwards
 
     async def main() -> None:
         from datetime import UTC, datetime
 
         h = await dbh.open_handler(path, "vfwire://c02")
         try:
-            for b in replies:
+            for i, b in enumerate(replies):
                 try:
                     obj = service.UDSResponse.parse_dynamic(b)
+                    handed_pdu = obj.pdu
+                    handed_data = getattr(obj, "data", None)
                 except Exception:
                     continue
                 if type(obj).__name__.startswith("Raw"):
@@ -510,36 +659,63 @@ def stored_form(ctx: Any, replies: list[bytes], service: Any) -> None:
                 now = datetime.now(UTC).astimezone()
                 req = RawRequest(bytes([(b[1] if b[0] == 0x7F else b[0] - 0x40) & 0xFF]) + b[1:3])
                 await dbh.guarded(h.insert_scan_result({"session": 1}, req, obj, None, now, now, LogMode.implicit), "insert_scan_result")
-                kept.append((b, obj))
-        finally:
+                did = "left-alone"
+                mode = i % 3 if use == "mix" else 1 + i % 2
+                if mode:
+                    if mode == 2:
+                        await asyncio.sleep(0)
+                    if edit_public(obj, EDIT_RNG):
+                        did = "edited-at-once" if mode == 1 else "edited-after-one-suspension"
+                        try:
+                            if obj.pdu != handed_pdu:
+                                did += "/pdu-changed"
+                        except Exception:
+                            did += "/pdu-changed"
+                kept.append((b, obj, handed_pdu, handed_data, did))
+        except BaseException:
+            await dbh.force_close(h)
+            raise
+        try:
             await dbh.close_handler(h)
+        except dbh.HandlerStep as e:  # torn down by force; whether rows were lost is decided from the file below
+            close_failed.append(e)
 
+    close_failed: list[Any] = []
     asyncio.run(asyncio.wait_for(main(), 600))
     rows = dbh.read_rows(path)
     if len(rows) != len(kept):
-        ctx.violation("stored/row-count-differs", f"{len(kept)} typed responses handed to insert_scan_result, {len(rows)} rows stored", {"handed": len(kept), "rows": len(rows)})
-        return
-    for (b, obj), row in zip(kept, rows):
+        edited = sum(1 for k in kept if k[4] != "left-alone")
+        after = "/response-objects-edited-after-insert" if edited else ""
+        nxt = kept[min(len(rows), len(kept) - 1)] if kept else (b"", None, b"", None, "left-alone")
+        how = f"; disconnect() {close_failed[0].kind}: {close_failed[0].error}" if close_failed else ""
+        ctx.violation(f"stored/row-count-differs{after}", f"{len(kept)} typed responses handed to insert_scan_result ({edited} of them edited by the caller afterwards), {len(rows)} rows stored{how}", {"handed": len(kept), "rows": len(rows), "bytes": nxt[0], "stored_tail": "", "caller_afterwards": nxt[4]})
+        if len(rows) > len(kept):
+            return
+    elif close_failed:
+        raise close_failed[0]  # every row is there and disconnect() still failed: not this property's business, not a verdict
+    for (b, obj, handed_pdu, handed_data, did), row in zip(kept, rows):
         ctx.reach("stored.rows")
+        ctx.reach(f"stored.caller-afterwards.{did}")
         if len(b) > 4095:
             ctx.reach("stored.long>4095")
         tag = type(obj).__name__
         lc = "len>4095" if len(b) > 4095 else "len>20" if len(b) > 20 else "short"
+        after = "" if did == "left-alone" else "/response-object-edited-after-insert"
         ctx.case(("stored", b), True)
         try:
             got = dbh.unhex(row["response_pdu"])
         except ValueError:
             got = None
-        if got != obj.pdu:
-            ctx.violation(f"stored/response_pdu-differs-from-reserialised/{lc}", f"{tag}: scan_result.response_pdu is not the hex form of the response's pdu ({len(obj.pdu)} bytes; stored text ends {str(row['response_pdu'])[-12:]!r})", {"bytes": b, "stored_tail": str(row["response_pdu"])[-40:], "stored_len": len(str(row["response_pdu"]))})
+        if got != handed_pdu:
+            ctx.violation(f"stored/response_pdu-differs-from-reserialised/{lc}{after}", f"{tag}: scan_result.response_pdu is not the hex form of the pdu the response had when it was handed to insert_scan_result ({len(handed_pdu)} bytes; stored text ends {str(row['response_pdu'])[-12:]!r}; caller afterwards: {did})", {"bytes": b, "stored_tail": str(row["response_pdu"])[-40:], "stored_len": len(str(row["response_pdu"])), "caller_afterwards": did})
         data = json.loads(row["response_data"]) if row["response_data"] else {}
         if "data" in data:
             try:
                 dgot = b"" if data["data"] == "''" else bytes.fromhex(data["data"])  # gallia writes empty bytes as ''
             except ValueError:
                 dgot = None
-            if dgot != obj.data:
-                ctx.violation(f"stored/response_data-differs/{lc}", f"{tag}: response_data.data is not the hex form of the response's data", {"bytes": b, "stored_tail": str(data["data"])[-40:]})
+            if dgot != handed_data:
+                ctx.violation(f"stored/response_data-differs/{lc}{after}", f"{tag}: response_data.data is not the hex form of the data the response had when it was handed over (caller afterwards: {did})", {"bytes": b, "stored_tail": str(data["data"])[-40:], "caller_afterwards": did})
         ctx.evals(1)
 
 
@@ -548,8 +724,12 @@ def replay(ctx: Any, witness: dict[str, Any]) -> None:
     from gallia.services.uds.core import service
 
     b = bytes.fromhex(witness["bytes"][4:])
+    EDIT_RNG.seed("C02/edit/replay")
     if "stored_tail" in witness:
-        stored_form(ctx, [b], service)
+        if witness.get("caller_afterwards", "left-alone") != "left-alone":
+            stored_form(ctx, [b] * 16, service, use="edit")
+        else:
+            stored_form(ctx, [b], service)
         return
     entry = witness.get("entry", "parse_dynamic")
     if entry == "parse_dynamic":
@@ -557,6 +737,9 @@ def replay(ctx: Any, witness: dict[str, Any]) -> None:
     else:
         parser = getattr(getattr(service, entry.split(".")[0]), entry.split(".")[1])
     keep = Keeper(ctx)
+    if "edited" in witness:  # second-parse-after-edit: the edit is random, try a few
+        for _ in range(32):
+            second_parse_after_edit(ctx, b, parser, entry, service)
     check_bytes(ctx, b, parser, entry, service, keep)
     for later in witness.get("later", []):  # earlier-object-changed: the later responses of the same class, then judge the first again
         check_bytes(ctx, bytes.fromhex(later[4:]), parser, entry, service, keep)
